@@ -322,7 +322,7 @@ def run_chunk(chunk):
         if chunk['kind'] == 'negra':
             for sh, k in sweep.iter_shapes(chunk):
                 for mt in edge_assignments(sh):
-                    vs, nontriv = check_negra(mt.to_json(), (None, 'rev', 'export')[res.evals % 3])
+                    vs, nontriv = check_negra(mt.to_json(), (None, 'rev', 'export', 'written')[res.evals % 4])
                     res.evals += 1
                     res.nontrivial += 1 if nontriv else 0
                     res.outcome((model.mt_str(mt.root, mt.toks), len(vs)))
